@@ -144,9 +144,8 @@ class H2Server:
                     elif k == S_INITIAL_WINDOW_SIZE:
                         old = self.acked[S_INITIAL_WINDOW_SIZE]
                         self.acked[S_INITIAL_WINDOW_SIZE] = v
-                        if v < old:  # decreases are applied when ACKed (increases were applied when sent)
-                            for s in self.streams.values():
-                                s["recv_window"] += v - old
+                        for s in self.streams.values():  # RFC 7540 6.9.2: every stream window moves by the difference
+                            s["recv_window"] += v - old
                     elif k == S_MAX_FRAME_SIZE:
                         self.acked[S_MAX_FRAME_SIZE] = v
                         if not self.pending_settings:
@@ -205,8 +204,9 @@ class H2Server:
                 if st is None or st.get("ended_by_client"):
                     self.violations.append(("data-on-closed", f"DATA on stream {sid} after the client had ended it (or never opened it)"))
                 return  # (DATA racing with our own RST_STREAM is legitimate)
-            if flen > 0 and st["recv_window"] < flen:
-                self.violations.append(("stream-window", f"DATA frame of {flen} bytes on stream {sid} while its window is {st['recv_window']}"))
+            if flen > 0 and st["recv_window"] + self._pending_window_leniency() < flen:
+                self.violations.append(("stream-window", f"DATA frame of {flen} bytes on stream {sid} while its window is {st['recv_window']} "
+                                        f"(+{self._pending_window_leniency()} for un-ACKed SETTINGS)"))
             st["recv_window"] -= flen
             st["ex"]["body"] += f.data
             st["ex"]["data_frames"].append(len(f.data))
@@ -303,8 +303,7 @@ class H2Server:
         self.exchanges.append(ex)
         if token is not None:
             self.net.seen_tokens.add(token)
-        self.streams[sid] = {"ex": ex, "recv_window": self.acked[S_INITIAL_WINDOW_SIZE] if not self.pending_settings else
-                             max([self.acked[S_INITIAL_WINDOW_SIZE]] + [int(s.get(str(S_INITIAL_WINDOW_SIZE), s.get(S_INITIAL_WINDOW_SIZE, 0))) for s in self.pending_settings if (str(S_INITIAL_WINDOW_SIZE) in s or S_INITIAL_WINDOW_SIZE in s)]),
+        self.streams[sid] = {"ex": ex, "recv_window": self.acked[S_INITIAL_WINDOW_SIZE],
                              "send_window": self.client_settings[S_INITIAL_WINDOW_SIZE], "closed_in": False,
                              "closed_out": False, "responded": False, "uncredited": 0}
         self.max_open_seen = max(self.max_open_seen, open_before + 1)
@@ -384,6 +383,17 @@ class H2Server:
             else:
                 self.counters["conn_uncredited"] = 0
 
+    def _pending_window_leniency(self):
+        """While SETTINGS carrying INITIAL_WINDOW_SIZE are un-ACKed the client may already have applied any prefix of them: the most
+        favourable reading is granted (largest window any such prefix gives, relative to the ACKed value)."""
+        best = 0
+        cur = self.acked[S_INITIAL_WINDOW_SIZE]
+        for st in self.pending_settings:
+            if S_INITIAL_WINDOW_SIZE in st:
+                cur = st[S_INITIAL_WINDOW_SIZE]
+                best = max(best, cur - self.acked[S_INITIAL_WINDOW_SIZE])
+        return best
+
     def _ensure_credit(self):
         """Whatever the policy, never leave an unfinished upload without credit and without a WINDOW_UPDATE on its way
         (a window can also become non-positive through an INITIAL_WINDOW_SIZE decrease)."""
@@ -417,11 +427,6 @@ class H2Server:
             if st[S_MAX_CONCURRENT_STREAMS] < self._open_count():
                 self.lowered_below_inflight = True
         self.pending_settings.append(st)
-        if S_INITIAL_WINDOW_SIZE in st and st[S_INITIAL_WINDOW_SIZE] > self.acked[S_INITIAL_WINDOW_SIZE]:
-            delta = st[S_INITIAL_WINDOW_SIZE] - self.acked[S_INITIAL_WINDOW_SIZE]
-            for s in self.streams.values():
-                s["recv_window"] += delta
-            self.acked[S_INITIAL_WINDOW_SIZE] = st[S_INITIAL_WINDOW_SIZE]
         if S_MAX_FRAME_SIZE in st:
             self.lenient_frame_size = max(self.lenient_frame_size, st[S_MAX_FRAME_SIZE])
         self._enqueue(0, fr.serialize(), 0, f"SETTINGS({st})")
